@@ -5,6 +5,8 @@ from .facts import extract, FactError, REPO
 from .extract import Ctx
 from .mirtab import Undecided
 from . import rules_scancode as RS
+from . import rules_ps2 as RP
+from . import rules_event as RE
 
 TRUSTED_COMMON = [
     'rustc nightly: MIR construction, type checking and callee resolution (Instance::try_resolve)',
@@ -35,7 +37,27 @@ def c19(ctx, rep, tier):
     RS.check_pairing(ctx, rep)
 
 
+def c05(ctx, rep, tier):
+    RP.check_frames(ctx, rep, tier)
+
+
+def c06(ctx, rep, tier):
+    RP.check_bitserial(ctx, rep, tier)
+
+
+def c04(ctx, rep, tier):
+    RE.check_modifiers(ctx, rep, tier)
+
+
+def c14(ctx, rep, tier):
+    RE.check_decoding(ctx, rep, tier)
+
+
 RULES = {
+    'C04': (c04, 'proof', 'per-path frame/effect rule on the generic process_keyevent MIR (one-step transition of each flag) + who-may-write scan; induction over event histories'),
+    'C14': (c14, 'proof', 'per-path rule on the generic process_keyevent MIR with the layout call opaque: call-site argument provenance (live &self.modifiers, self.handle_ctrl, &self.layout) and returned value'),
+    'C05': (c05, 'proof', 'MIR decision-list extraction of add_word over all 11-bit words (value-set abstract interpretation) compared with the frame specification'),
+    'C06': (c06, 'proof', 'symbolic-register induction: abstract interpretation of add_bit/clear over 11 abstract states with ghost bits; post-state equality with new()'),
     'C01': (c01, 'other', 'MIR decision-table extraction (value-set abstract interpretation) + table agreement with frozen IBM/MS reference'),
     'C02': (c02, 'other', 'MIR decision-table extraction (value-set abstract interpretation) + table agreement with frozen IBM/MS reference'),
     'C07': (c07, 'proof', 'must-reset-before-return path rule on the extracted transition relation + DAG bound on Ok(None) edges (induction over histories)'),
